@@ -20,6 +20,8 @@ pub enum TagPat {
     TwoOnFirst,
     Middle,
     TwoOnLast,
+    /// Three tags on every sample.
+    Dense,
 }
 
 impl TagPat {
@@ -53,6 +55,9 @@ impl TagPat {
             TagPat::TwoOnFirst => vec![Tag::new(0, "a", a()), Tag::new(0, "b", b())],
             TagPat::Middle => vec![Tag::new(n / 2, "c", c())],
             TagPat::TwoOnLast => vec![Tag::new(n - 1, "d", d()), Tag::new(n - 1, "a", a())],
+            TagPat::Dense => (0..n)
+                .flat_map(|i| [Tag::new(i, "k0", a()), Tag::new(i, "k1", b()), Tag::new(i, "k2", c())])
+                .collect(),
         }
     }
 }
@@ -364,7 +369,7 @@ impl<T: Elem> Sys<T> {
                         return Ok(());
                     }
                 };
-                assert!(m1 >= 1 && m1 <= have && m2 <= r2.len() && m1 + m2 > have);
+                assert!(m1 >= 1 && m1 <= have && m2 <= r2.len());
                 if let Err(e) = catch(move || r1.consume(m1)) {
                     return fail("consume-panic", format!("consume of {m1} (have {have}) panicked: {e}"));
                 }
@@ -372,6 +377,17 @@ impl<T: Elem> Sys<T> {
                     self.m.q.pop_front();
                 }
                 let left = have - m1;
+                if m2 <= left {
+                    // Fits: a consume is relative to where the stream is now,
+                    // whichever window it goes through.
+                    if let Err(e) = catch(move || r2.consume(m2)) {
+                        return fail("consume-panic", format!("consume of {m2} through a second read window (have {left}) panicked: {e}"));
+                    }
+                    for _ in 0..m2 {
+                        self.m.q.pop_front();
+                    }
+                    return self.check_state();
+                }
                 let r = catch(move || r2.consume(m2));
                 if r.is_ok() {
                     return fail(
@@ -397,7 +413,16 @@ impl<T: Elem> Sys<T> {
                         return Ok(());
                     }
                 };
-                assert!(n1 >= 1 && n1 <= room && n2 <= w2.len() && n1 + n2 > room);
+                assert!(n1 >= 1 && n1 <= room && n2 <= w2.len());
+                let mut w2 = w2;
+                if n1 + n2 <= room {
+                    // Fits. The second window was taken at the old write
+                    // position: what it commits lands after the first commit,
+                    // which is where these samples are written through it.
+                    for i in 0..n2 {
+                        w2.slice()[n1 + i] = T::from_serial((self.m.next + (n1 + i) as u64) % T::modulus());
+                    }
+                }
                 for i in 0..n1 {
                     w1.slice()[i] = T::from_serial((self.m.next + i as u64) % T::modulus());
                 }
@@ -409,6 +434,16 @@ impl<T: Elem> Sys<T> {
                 }
                 self.m.next += n1 as u64;
                 let left = room - n1;
+                if n2 <= left {
+                    if let Err(e) = catch(move || w2.produce(n2, &[])) {
+                        return fail("commit-panic", format!("commit of {n2} through a second write window (room {left}) panicked: {e}"));
+                    }
+                    for i in 0..n2 {
+                        self.m.q.push_back((self.m.next + i as u64, vec![]));
+                    }
+                    self.m.next += n2 as u64;
+                    return self.check_state();
+                }
                 let r = catch(move || w2.produce(n2, &[]));
                 if r.is_ok() {
                     return fail(
@@ -629,11 +664,13 @@ fn amounts(limit: usize, wrap_dist: usize, cap: usize) -> Vec<usize> {
 
 fn successors(key: &Key, cap: usize, pats: &[TagPat]) -> Vec<Op> {
     let mut ops = Vec::new();
-    let free = cap - key.used;
+    // (Internal cursors are only used to pick amounts near the wrap point: an
+    // implementation that lets them run past the capacity is not wrong by that alone.)
+    let free = cap.saturating_sub(key.used);
     // Producer side. With a held window only that window can be committed
     // (single producer), and only up to its own length.
     let wlimit = key.held_w.unwrap_or(free);
-    for n in amounts(wlimit, cap - key.wpos, cap) {
+    for n in amounts(wlimit, cap - key.wpos % cap, cap) {
         if n > wlimit && (key.held_w.is_some() && free > wlimit) {
             // More than the held window but within space freed since: outside
             // the alphabet (caller contract).
@@ -664,7 +701,10 @@ fn successors(key: &Key, cap: usize, pats: &[TagPat]) -> Vec<Op> {
     if key.held_w.is_none() && key.held_r.is_none() && free >= 1 {
         let mut seen = vec![];
         for n1 in [1, free] {
-            for n2 in [free - n1 + 1, free] {
+            for n2 in [free - n1 + 1, free, 1, free - n1] {
+                if n2 == 0 {
+                    continue;
+                }
                 if !seen.contains(&(n1, n2)) {
                     seen.push((n1, n2));
                     ops.push(Op::WW { n1, n2 });
@@ -674,7 +714,7 @@ fn successors(key: &Key, cap: usize, pats: &[TagPat]) -> Vec<Op> {
     }
     // Consumer side.
     let rlimit = key.held_r.unwrap_or(key.used);
-    for m in amounts(rlimit, cap - key.rpos, cap) {
+    for m in amounts(rlimit, cap - key.rpos % cap, cap) {
         if m > rlimit && key.held_r.is_some() && key.used > rlimit {
             continue;
         }
@@ -686,7 +726,10 @@ fn successors(key: &Key, cap: usize, pats: &[TagPat]) -> Vec<Op> {
     if key.held_w.is_none() && key.held_r.is_none() && key.used >= 1 {
         let mut seen = vec![];
         for m1 in [1, key.used] {
-            for m2 in [key.used - m1 + 1, key.used] {
+            for m2 in [key.used - m1 + 1, key.used, 1, key.used - m1] {
+                if m2 == 0 {
+                    continue;
+                }
                 if !seen.contains(&(m1, m2)) {
                     seen.push((m1, m2));
                     ops.push(Op::RR { m1, m2 });
@@ -1081,6 +1124,16 @@ pub fn run(prop: &'static str, tier: &str, shard: Option<&str>) -> Report {
     native!(u128, 1, "native-u128x1", true);
     native!(u8, 2, "native-u8x2", false);
     native!(u128, 3, "native-u128x3", false);
+    // Many tags in one window (three per sample), around the wrap point.
+    if want("dense") && tagged {
+        let dense = vec![TagPat::None, TagPat::Dense];
+        let cap = PAGE;
+        let offs: Vec<usize> = vec![0, cap - 40, cap - 20, cap - 6, cap - 1];
+        sweep::<u8>(&mut rep, &mk(PAGE, &dense), &offs, &[0, 1, 40], 2);
+        let cap = PAGE / 8;
+        let offs: Vec<usize> = vec![0, cap - 40, cap - 13, cap - 1];
+        sweep::<u64>(&mut rep, &mk(PAGE, &dense), &offs, &[0, 40], 2);
+    }
     if want("nondividing") && !tagged {
         nondividing::<[u8; 3]>(&mut rep, &mk(PAGE, &small));
         nondividing::<[u8; 12]>(&mut rep, &mk(PAGE, &small));
@@ -1094,7 +1147,8 @@ pub fn run(prop: &'static str, tier: &str, shard: Option<&str>) -> Report {
     rep
 }
 
-pub const SHARDS: [&str; 14] = [
+pub const SHARDS: [&str; 15] = [
+    "dense",
     "closure-small",
     "closure-4",
     "closure-6",
